@@ -63,6 +63,10 @@ Definition instr (i : rz) (rest : list rz) (s : rs) : option rs :=
   | ZAdjust => let k := maxw s - len s in
                Some (mk (maxw s) (al s + k) (ex s) (de s) (pending s) (sent s) (broken s) (started s) (mlock s) (Some rest) (rnew s)
                         (rsnap s) (faults s) (spawned s + k) (left s) (bad s) (raised s) (clean0 s))
+  | ZAdjustIfLive => if broken s then Some (set_pc s (Some rest)) else
+               let k := maxw s - len s in
+               Some (mk (maxw s) (al s + k) (ex s) (de s) (pending s) (sent s) (broken s) (started s) (mlock s) (Some rest) (rnew s)
+                        (rsnap s) (faults s) (spawned s + k) (left s) (bad s) (raised s) (clean0 s))
   | ZWaitAllAlive => if negb (broken s) && negb (Nat.eqb (ex s + de s) 0) then None else Some (set_pc s (Some rest))
   | ZLocked _ => None          (* never present after flattening *)
   end.
